@@ -168,7 +168,7 @@ theorem C18_inbound_keeps_generation (d : SessionData) (r : Runtime) (p : Recv) 
 
 /-! ### (e) Rejections -/
 
-/-- **The poll reports `Peer(Rejected rc)` exactly when** (`Recv.rejects`): a SUBACK/UNSUBACK that found
+/-- **`handle_packet` (whose error `poll`/`recv`/`drive` return: `processReceivedPacket` passes `Peer` errors through) reports `Peer(Rejected rc)` exactly when** (`Recv.rejects`): a SUBACK/UNSUBACK that found
 its packet has `rc` as its first failing code; a PUBACK that found its packet, a PUBREC that found its
 PUBLISH *or whose identifier has a release entry*, or a PUBCOMP that found its release entry carries
 the failure code `rc`. No other inbound packet produces it. -/
